@@ -113,34 +113,51 @@ theorem hvdHaves_comp (m : M) (h : CompInv m.1) : CompInv (hvdHaves m).1 := by c
 
 /-! ### commands -/
 
-theorem start_comp (m : M) (h : CompInv m.1) : CompInv (start m).1 := by
-  obtain ⟨hcc, hall, hrun⟩ := h
-  unfold start
+/-- `startCore` re-establishes the `run` clause by itself (it installs the allocator, the verifier, or
+finds the bitfield). -/
+theorem startCore_comp' (m : M) (hcc : m.1.completeCClosed = m.1.completed)
+    (hall : m.1.completed = true → m.1.bf = none ∨ ∃ b, m.1.bf = some b ∧ allTrue b = true) :
+    CompInv (startCore m).1 := by
+  unfold startCore
   dsimp only
   repeat' split
   all_goals (constructor <;> simp_all)
+
+theorem startCore_comp (m : M) (h : CompInv m.1) : CompInv (startCore m).1 := startCore_comp' m h.cc h.all
 
 theorem handleStopped_comp (m : M) (h : CompInv m.1) : CompInv (handleStopped m).1 := by
   unfold handleStopped
   dsimp only
   split
-  · apply start_comp
+  · apply startCore_comp
     obtain ⟨hcc, hall, hrun⟩ := h
     constructor <;> simp_all
   · obtain ⟨hcc, hall, hrun⟩ := h
     constructor <;> simp_all
 
+theorem startPre_comp (m : M) (h : CompInv m.1) : CompInv (startPre m).1 := by
+  unfold startPre
+  split
+  · exact handleStopped_comp _ (h.of_frame rfl rfl rfl rfl rfl rfl rfl rfl)
+  · exact h
+
+theorem startGo_comp (m : M) (h : CompInv m.1) : CompInv (startGo m).1 := by
+  unfold startGo
+  split
+  · exact h
+  · exact startCore_comp _ h
+
+theorem start_comp (m : M) (h : CompInv m.1) : CompInv (start m).1 := by
+  rw [start_eq]
+  exact startGo_comp _ (startPre_comp m h)
+
 theorem handleVerifyCommand_comp (m : M) (h : CompInv m.1) : CompInv (handleVerifyCommand m).1 := by
   unfold handleVerifyCommand
   dsimp only
   split
-  · apply start_comp
-    next hst =>
-    have he : m.1.errC = false := by
-      have := (status_stopped_iff (onSt m fun s => { s with doVerify := true }).1).1 hst
-      simpa using this
-    obtain ⟨hcc, hall, hrun⟩ := h
-    constructor <;> simp_all
+  · apply startCore_comp'
+    · simpa using h.cc
+    · intro _; left; simp
   · simp only [onSt_fst]
     apply stop_comp
     exact h.of_frame rfl rfl rfl rfl rfl rfl rfl rfl
